@@ -85,10 +85,15 @@ def _magic():
     return magic.pool()
 
 
+def _boost(p):
+    from . import magic
+    return magic.boost(p)
+
+
 def _wint(rnd, bits, signed):
     lo, hi = (-(1 << bits - 1), (1 << bits - 1) - 1) if signed \
         else (0, (1 << bits) - 1)
-    if rnd.random() < 0.07:
+    if rnd.random() < _boost(0.07):
         v = _magic().rint(rnd, lo, hi)
         if v is not None:
             return v
@@ -146,9 +151,9 @@ def wleaf(rnd, w, tag, allow_refuse=True):
             else rnd.randint(0, 255)
         raw = rnd.choice(gv.UNSCALED) if rnd.random() < 0.6 \
             else rnd.randint(-2**31, 2**31 - 1)
-        if rnd.random() < 0.1:
+        if rnd.random() < _boost(0.1):
             scale = _magic().rint(rnd, 0, 255) or scale
-        if rnd.random() < 0.1:
+        if rnd.random() < _boost(0.1):
             raw = _magic().rint(rnd, -2**31, 2**31 - 1) or raw
         w.put(struct.pack('>Bi', scale, raw))
         return D(raw).scaleb(-scale, decimal.Context(prec=400))
@@ -376,7 +381,7 @@ def _finish(w, ftype, channel, **kw):
 
 
 def rchannel(rnd):
-    if rnd.random() < 0.05:
+    if rnd.random() < _boost(0.05):
         v = _magic().rint(rnd, 0, 65535)
         if v is not None:
             return v
@@ -469,10 +474,10 @@ def body_frame(rnd, n=None):
     w = W()
     n = n if n is not None else rnd.choice([1, 2, 7, 8, 255, 256,
                                             rnd.randint(1, 400)])
-    if rnd.random() < 0.06:
+    if rnd.random() < _boost(0.06):
         n = _magic().rint(rnd, 1, 9000) or n
     raw = bytearray(rnd.randbytes(n))
-    if rnd.random() < 0.06:
+    if rnd.random() < _boost(0.06):
         m = _magic().rbytes(rnd)
         if m:
             at = rnd.choice([0, 0, max(0, n - len(m)), rnd.randint(0, n)])
@@ -496,7 +501,7 @@ def heartbeat_frame(rnd):
 
 def protocol_header(rnd):
     v = (rnd.randint(0, 255), rnd.randint(0, 255), rnd.randint(0, 255))
-    if rnd.random() < 0.3:
+    if rnd.random() < _boost(0.3):
         o = _magic().octets
         v = tuple(rnd.choice(o) if rnd.random() < 0.8 else x for x in v)
     data = b'AMQP\x00' + bytes(v)
@@ -543,3 +548,25 @@ def magic_method_frames(rnd, spec):
                 yield method_frame(rnd, spec, False, None, {n: m})
     for c in mp.ints_in(0, 65535):
         yield method_frame(rnd, spec, False, None, None, channel=c)
+    # several positions at once; many more when the tree holds constants
+    # that the validated tree did not (they are preferred by the draws)
+    for _ in range(400 if mp.novel_ints or mp.novel_strs else 30):
+        fv = {}
+        for n, t, _d in spec.args:
+            if rnd.random() < 0.7:
+                if t in rng:
+                    v = mp.rint(rnd, *rng[t])
+                    if v is not None:
+                        fv[n] = v
+                elif t == 'shortstr':
+                    v = mp.rstr(rnd, 255)
+                    if v is not None:
+                        fv[n] = v
+                elif t == 'longstr':
+                    v = mp.rstr(rnd, 70000)
+                    if v is not None:
+                        fv[n] = v
+                elif t == 'bit':
+                    fv[n] = rnd.random() < 0.5
+        ch = mp.rint(rnd, 0, 65535) if rnd.random() < 0.5 else None
+        yield method_frame(rnd, spec, False, None, fv, channel=ch)
